@@ -11,6 +11,8 @@ def _proj(op, line):
         if not o or o[0] != "ok":
             return line
         kv = dict(x.split("=", 1) for x in w[1:] if "=" in x)
+        if kv.get("op", "0") != "0":
+            return "ok ? ? " + o[3]      # an operator's ResetSession: the last epoch starts at a schedule dependent moment
         if kv.get("early") == "1" and kv.get("reset") != "0":
             return "ok ? ? " + o[3]      # sends racing with a Logon-triggered reset: count of the last epoch is schedule dependent
         return " ".join(o[:4])
@@ -41,7 +43,7 @@ PROPS["C02"] = {
              'for a failing round); the sequential model is tied by the sess correspondence (store mutations, wire writes, sender counter per event). Defect fixed on the way: '
              'handleLogon / Connect reset the store outside sendMutex and without dropping the queue (repo commit "fix: Logon-triggered sequence resets drop the send queue under the send lock").'),
     "rule": ('sess: see C01 (projection: store save/incS/setS/reset items, wire writes, sender counter). conc: one case = one stress round of the real engine: store mem|file (1/8), '
-             'persistence on (4/5), 4/8/16/32 sender goroutines, 120-360 sends (thorough 300-1500), senders started before the Logon in 1/4 of the rounds, session is the initiator in 1/4, Logon-triggered reset '
+             'persistence on (4/5), 4/8/16/32 sender goroutines, 120-360 sends (thorough 300-1500), senders started before the Logon in 1/4 of the rounds, session is the initiator in 1/4, an operator goroutine calls the public quickfix.ResetSession in 3/10 (1/10 at a pseudo-random point of the script, 2/10 from inside a multi-message replay: started by the ToApp callback of the second replayed message), Logon-triggered reset '
              '(peer 141=Y or ResetOnLogon) in 1/3, 0-3 ResendRequests over ranges already seen, 0-3 TestRequests, 0-2 Heartbeats at pseudo-random points, outbound channel capacity 0/1/4/64, '
              'Gosched / microsecond sleeps from the case PRNG; rounds run in a worker process so that an engine that corrupts memory is an observation (crashed), not a harness failure; '
              'a corpus of 12 rounds (parameter sets on which the unchanged tree or the sanity mutants failed) runs first; distinct = distinct (store, persist, early, reset, senders, replay seen) shapes'),
